@@ -101,6 +101,17 @@ CHECKS.update({
    note=GEN_NOTE + " The type column of body tables is not judged (upcasts are rendered without the cast); body tables are absent by design for nested ifs (counted)."),
 })
 
+CHECKS.update({
+ "C07": dict(engine="gencheck", category="exploration", design="DESIGN.md §2 C07",
+   technique="grammar-based program generation (proptest tape -> well-formed wowm message definitions over all language features of the world corpus), real generator + rustc on scratch trees, then round-trip of the compiled codec over canonical encodings that the independent model derives from the same text (directed enumeration of every decision site + tapes); hand-reduced directed cases reproduce each recorded finding",
+   text="About 360 random definitions per quick run (96 x 80 thorough) replace the bodies of Vanilla messages in six scratch trees; the generator must accept each tree, the generated crate must compile, and a probe through the public opcode enums must accept, fully consume and byte-identically re-encode every encoding (about 14,000 per quick run). A definition that stops the generator or the build is attributed (diagnostic, else bisection), reported, taken out, and the rest of the batch continues. Shapes covered by a recorded finding are steered around by construction (counted) and re-checked by 14 directed cases.",
+   note=GEN_NOTE + " Only the Vanilla module with the sync flavour is compiled. No automatic shrinking of a failing definition beyond attribution: the replay file carries the tape and the text."),
+ "C19": dict(engine="gencheck", category="exploration", design="DESIGN.md §2 C19",
+   technique="combinatorial interaction testing of cargo features (seeded greedy strength-3 covering arrays, full powerset in the thorough tier) with cargo check, failing sets reduced feature by feature; plus a differential across feature configurations: one probe program compiled under several feature sets run on the same model-generated frames",
+   text="cargo check of wow_login_messages under all 8 feature sets, of wow_world_base (8 features) and wow_world_messages (9 features incl. the optional dependencies) under sets in which every on/off combination of any three features occurs (16-20 sets each; thorough: the powerset); then the probe built with {vanilla sync}, {tbc tokio}, {wrath async-std}, a seed-drawn set and with every feature reads and re-writes about 15,000 canonical and damaged frames and the outputs are compared with the all-features build.",
+   note=GEN_NOTE + " Warnings are allowed (the property speaks of errors). Interactions of four or more features are only covered in the thorough tier."),
+})
+
 PENDING = {}
 
 def main():
@@ -132,7 +143,7 @@ def main():
             {"name": "wowm_model", "path": "harness/model", "serves_properties": ["C01", "C02", "C03", "C04", "C05", "C06", "C14"], "kind_free_text": "independent reading of the wowm language: parser, resolver, tape-driven encoder/decoder with trace, exact size analysis"},
             {"name": "codec_harness", "path": "harness/codec_harness", "serves_properties": ["C01", "C02", "C03", "C04", "C05", "C06", "C14"], "kind_free_text": "Rust binary linking /repo's three libraries with all features; generic endpoints over the public opcode enums, typed expect_* helpers, scripted async transport, isolated worker processes"},
             {"name": "typed_harness", "path": "harness/typed_harness", "serves_properties": ["C11", "C12", "C13"], "kind_free_text": "Rust binary linking /repo's libraries; build script scans the generated sources for public enum / flag / update-mask types and emits adapters; expected behaviour from the wowm model and the published update-mask table"},
-            {"name": "gencheck", "path": "harness/gencheck", "serves_properties": ["C08", "C09", "C10", "C16", "C17", "C18"], "kind_free_text": "drives the real generator (built from /repo's working tree) on rsync'ed scratch trees: run histories, perturbations, fault injection into the wowm corpus"},
+            {"name": "gencheck", "path": "harness/gencheck", "serves_properties": ["C07", "C08", "C09", "C10", "C16", "C17", "C18", "C19"], "kind_free_text": "drives the real generator (built from /repo's working tree) on rsync'ed scratch trees: run histories, perturbations, fault injection into the wowm corpus"},
         ],
         "checks": checks,
         "notes": "All checks: property-based testing / fuzzing (generated-input search against an explicit oracle). ./check <ID> <tier> rebuilds the harness from /repo's working tree with cargo (offline) and runs it; VERIF_SEED selects the proptest seed. Exit 2 = infrastructure problem or inconclusive, never a violation. known_findings.txt lists recorded findings and repaired defects.",
